@@ -139,6 +139,65 @@ theorem runPkg_canon (C : Containers) (ops : List Op)
       · rw [ih'.1]; exact map_canon_modify C (applyIns i) hinv p pkg
       · rw [ih'.2]; simp [stepPkg]
 
+/-! ### `canon` is a canonical form: nothing erasable is left, and it is idempotent -/
+
+theorem canon_tag (C : Containers) (t : XT) : (canon C t).tag = t.tag := by
+  obtain ⟨tag, as, ks⟩ := t; simp [canon, XT.tag]
+
+theorem allEmptyL_cons (C : Containers) (k : XT) (ks : List XT) :
+    allEmptyL C (k :: ks) = (allEmpty C k && allEmptyL C ks) := by simp [allEmptyL]
+
+mutual
+theorem allEmpty_of_canon (C : Containers) : ∀ t : XT, allEmpty C (canon C t) = true → allEmpty C t = true
+  | .mk tag as ks, h => by
+    rw [canon_mk, allEmpty_mk, Bool.and_eq_true] at h
+    rw [allEmpty_mk, Bool.and_eq_true]
+    exact ⟨h.1, allEmptyL_of_canonL C ks h.2⟩
+theorem allEmptyL_of_canonL (C : Containers) : ∀ ks : List XT, allEmptyL C (canonL C ks) = true → allEmptyL C ks = true
+  | [], _ => by simp [allEmptyL]
+  | k :: ks, h => by
+    rw [allEmptyL_cons, Bool.and_eq_true]
+    by_cases he : erasable C k = true
+    · have hk : allEmpty C k = true := by
+        simp only [erasable, Bool.and_eq_true] at he; exact he.2
+      have : canonL C (k :: ks) = canonL C ks := by simp [canonL, he]
+      rw [this] at h
+      exact ⟨hk, allEmptyL_of_canonL C ks h⟩
+    · have : canonL C (k :: ks) = canon C k :: canonL C ks := by simp [canonL, he]
+      rw [this, allEmptyL_cons, Bool.and_eq_true] at h
+      exact ⟨allEmpty_of_canon C k h.1, allEmptyL_of_canonL C ks h.2⟩
+end
+
+/-- what `canon` keeps is not erasable afterwards either -/
+theorem not_erasable_canon (C : Containers) (t : XT) (h : erasable C t = false) : erasable C (canon C t) = false := by
+  cases he : erasable C (canon C t) with
+  | false => rfl
+  | true =>
+    simp only [erasable, Bool.and_eq_true, canon_tag] at he
+    have : erasable C t = true := by
+      simp only [erasable, Bool.and_eq_true]
+      exact ⟨he.1, allEmpty_of_canon C t he.2⟩
+    rw [this] at h; cases h
+
+mutual
+/-- **`canon` is idempotent**: canonicalising twice is canonicalising once -/
+theorem canon_idem (C : Containers) : ∀ t : XT, canon C (canon C t) = canon C t
+  | .mk tag as ks => by
+    rw [canon_mk, canon_mk, canonL_idem C ks]
+theorem canonL_idem (C : Containers) : ∀ ks : List XT, canonL C (canonL C ks) = canonL C ks
+  | [] => by simp [canonL]
+  | k :: ks => by
+    by_cases he : erasable C k = true
+    · have : canonL C (k :: ks) = canonL C ks := by simp [canonL, he]
+      rw [this]; exact canonL_idem C ks
+    · have he' : erasable C k = false := by simpa using he
+      have h1 : canonL C (k :: ks) = canon C k :: canonL C ks := by simp [canonL, he]
+      rw [h1]
+      have h2 : canonL C (canon C k :: canonL C ks) = canon C (canon C k) :: canonL C (canonL C ks) := by
+        simp [canonL, not_erasable_canon C k he']
+      rw [h2, canon_idem C k, canonL_idem C ks]
+end
+
 /-! ### the executable tree equality used by the driver and the examples is equality -/
 
 mutual
